@@ -195,6 +195,10 @@ class InjectedFault(BaseException):
     pass
 
 
+class UserAbort(Exception):
+    """An ordinary exception raised half-way by a traced / called user function."""
+
+
 # ------------------------------------------------------------------ case generation
 
 
@@ -241,7 +245,11 @@ def gen_ops(rng, kn, n, depth=0):
         elif r < 0.88 and depth < 2 and kn["p_nested"] > 0:
             how = rng.choice(["trace", "call"])
             nargs = rng.randint(1, 2)
-            op = [how, [rng.choice(kn["types"]) for _ in range(nargs)], gen_ops(rng, kn, rng.randint(1, 6), depth + 1)]
+            body = gen_ops(rng, kn, rng.randint(1, 6), depth + 1)
+            if rng.random() < 0.3:
+                # the user function raises an ordinary exception half-way; what it built stays alive
+                body.insert(rng.randint(1, len(body)), ["raise"])
+            op = [how, [rng.choice(kn["types"]) for _ in range(nargs)], body]
         elif r < 0.88 + kn["p_lib"] and depth == 0:
             name, sig = rng.choice(LIB)
             op = ["lib", name, sig, rng.choice(["none", "python", "numpy", "stablehlo"])]
@@ -612,8 +620,11 @@ class Sim:
         if op[0] == "fault":
             return self.step(op[2], fault=op[1])
         t = op[0]
-        self.log.ev("op", t, op[1] if isinstance(op[1], str) else None)
+        self.log.ev("op", t, op[1] if len(op) > 1 and isinstance(op[1], str) else None)
         self.bump(self.stats, "ops")
+        if t == "raise":
+            self.bump(self.faults, "user_function_raised_halfway")
+            raise UserAbort("user function failed half-way")
         try:
             if t in ("sym", "const", "op", "select", "list", "item", "len"):
                 call, check = self.do_plain(op)
@@ -665,7 +676,7 @@ class Sim:
             self.log.ev("rejected", type(e).__name__)
             return None
         except (AssertionError, TypeError, ValueError, NotImplementedError, KeyError, AttributeError, IndexError,
-                OverflowError, ZeroDivisionError, RecursionError) as e:
+                OverflowError, ZeroDivisionError, RecursionError, UserAbort) as e:
             self.bump(self.faults, "rejected:" + type(e).__name__)
             self.log.ev("rejected", type(e).__name__)
             return None
